@@ -63,6 +63,15 @@ impl Concretise {
                 }
             }
             2 => 100 + (v as usize),
+            // just below / just above a separation threshold of 100_000 bytes: a few hundred
+            // inline values fill a flush beyond its 64 MiB table target
+            3 => {
+                if v % 2 == 0 {
+                    100_100 + (v as usize)
+                } else {
+                    99_000 + (v as usize)
+                }
+            }
             _ => 3,
         }
     }
